@@ -1130,7 +1130,7 @@ func (dc *driverContextInsertion) transition(driver stateTableDriver, entry tabl
 	if markedInsertIndex != 0xFFFF {
 		count := int(flags & miMarkedInsertCount)
 		buffer.maxOps -= count
-		if buffer.maxOps <= 0 {
+		if buffer.maxOps <= 0 || buffer.exceedsMaxLen(count) {
 			return
 		}
 		start := markedInsertIndex
@@ -1167,6 +1167,9 @@ func (dc *driverContextInsertion) transition(driver stateTableDriver, entry tabl
 			return
 		}
 		buffer.maxOps -= count
+		if buffer.exceedsMaxLen(count) {
+			return
+		}
 		start := currentInsertIndex
 		glyphs := dc.insertionAction[start:]
 
